@@ -363,6 +363,19 @@ func extract(repo string, it Item) (sourceTxt, lean string, err error) {
 			return "", "", fmt.Errorf("case %d:%d not found", n, m)
 		}
 		e = cases[n].List[m]
+	case "iftext":
+		// whole if statement (init; cond {body}) as a normalised source string
+		n, err := idx(1)
+		if err != nil {
+			return "", "", err
+		}
+		if n >= len(ifs) {
+			return "", "", fmt.Errorf("if #%d not found (function has %d)", n, len(ifs))
+		}
+		cp := *ifs[n]
+		cp.Else = nil
+		t := norm(src(&cp))
+		return t, leanString(t), nil
 	case "callarg":
 		// callarg:FUNCTEXT:N:ARG  — ARG-th argument of the N-th call whose Fun text is FUNCTEXT
 		n, err := idx(2)
@@ -401,7 +414,38 @@ func main() {
 	report := flag.String("report", "", "report json path")
 	pin := flag.String("pin", "", "pinned.json path (fallback definitions)")
 	writepin := flag.Bool("writepin", false, "rewrite pinned.json from the current tree")
+	list := flag.String("list", "", "debug: FILE:FUNC — list the selectable sites of a function")
 	flag.Parse()
+	if *list != "" {
+		i := strings.Index(*list, ":")
+		f, err := parseFile(*repo, (*list)[:i])
+		if err != nil {
+			panic(err)
+		}
+		fd := findFunc(f, (*list)[i+1:])
+		if fd == nil {
+			fmt.Println("not found")
+			return
+		}
+		ifs, rets, cases, calls := collect(fd.Body)
+		for i, n := range ifs {
+			init := ""
+			if n.Init != nil {
+				init = norm(src(n.Init)) + " ; "
+			}
+			fmt.Printf("if:%d  %s%s\n", i, init, norm(src(n.Cond)))
+		}
+		for i, n := range rets {
+			fmt.Printf("return:%d  %s\n", i, norm(src(n)))
+		}
+		for i, n := range cases {
+			for j, e := range n.List {
+				fmt.Printf("case:%d:%d  %s\n", i, j, norm(src(e)))
+			}
+		}
+		_ = calls
+		return
+	}
 
 	pinned := map[string]string{}
 	if *pin != "" && !*writepin {
@@ -449,7 +493,11 @@ func main() {
 		want := map[string]bool{}
 		for _, g := range order {
 			var b strings.Builder
-			b.WriteString("/- GENERATED by go2lean from /repo — do not edit. -/\nnamespace Moc.Gen\n\n")
+			b.WriteString("/- GENERATED by go2lean from /repo — do not edit. -/\n")
+			for _, imp := range groupImports[g] {
+				b.WriteString("import MocModel.Gen." + imp + "\n")
+			}
+			b.WriteString("namespace Moc.Gen\n\n")
 			for _, r := range groups[g] {
 				fmt.Fprintf(&b, "/-- %s %s [%s]\n    Go: `%s`%s -/\n", r.File, r.Func, r.Sel, strings.ReplaceAll(r.Source, "-/", "- /"), map[bool]string{true: "", false: "\n    EXTRACTION FAILED: " + r.Err + " (pinned fallback in use)"}[r.OK])
 				fmt.Fprintf(&b, "def %s %s : %s := %s\n\n", r.Name, r.Params, r.Type, r.Lean)
